@@ -50,6 +50,7 @@
   `RedkaModel/Proofs/Abs.lean` (tables against the abstraction, shared by all families) and
   `RedkaModel/Proofs/Str.lean`.
 -/
+import RedkaModel.Proofs.Float
 import RedkaModel.Proofs.Str
 import RedkaModel.Props.C17
 
@@ -342,6 +343,103 @@ theorem incr_nonnumeric_notrace : ∀ (k : Bytes) (d : Int) (now : Int) (db : DB
     (Model.dbRun (.strIncr k d) now db).out = .error .valueType →
     (Model.dbRun (.strIncr k d) now db).db = db :=
   fun _ _ _ _ h => update_error_db h
+
+/-! ### float increment -/
+
+/-- the text `formatFloatDec` prints is never empty and reads back (through `core.Value.Float`) as
+the number printed -/
+theorem valueFloat_format {v : Dyadic} {txt : Bytes} (h : formatFloatDec v = some txt) :
+    valueFloat txt = .val v := by
+  have hp := Redka.Float.parse_format v txt h
+  unfold valueFloat
+  cases txt with
+  | nil =>
+    have h0 : parseFloatDec [] = .invalid := by decide
+    rw [h0] at hp; cases hp
+  | cons c t => simpa using hp
+
+/-- "…stores the canonical text of the sum, which a following get returns", for the float
+increment: whenever `IncrFloat` succeeds with result `v` (on a name that is not stale), the key
+then holds the decimal text of `v`, that text reads back as exactly `v` (so the next float
+increment starts from the sum), and the expiry is what it was. -/
+theorem incrfloat_roundtrip : ∀ (k : Bytes) (d v : Dyadic) (now : Int) (db : DB), db.Inv →
+    Spec.staleKey db now k = false →
+    (Model.dbRun (.strIncrFloat k d) now db).out = .ok (.score (.fin v)) →
+    ∃ txt, formatFloatDec v = some txt ∧ valueFloat txt = .val v ∧
+      (Spec.get (Spec.abs now (Model.dbRun (.strIncrFloat k d) now db).db) k).map (·.val) = some (.str txt) ∧
+      (Spec.get (Spec.abs now (Model.dbRun (.strIncrFloat k d) now db).db) k).map (·.etime)
+        = some ((Spec.get (Spec.abs now db) k).bind (·.etime)) := by
+  intro k d v now db hinv hns hout
+  have hw := DB.Inv.wf hinv
+  have href := str_refines_partial (.strIncrFloat k d) now db rfl hinv rfl
+    (by simpa [Stale, writeKeys] using hns) rfl
+  simp only [Spec.step] at href
+  rw [hout] at href
+  obtain ⟨ho, hst⟩ := href
+  have hs := sorted_abs hw.names now
+  cases hg : Spec.get (Spec.abs now db) k with
+  | none =>
+    simp only [Spec.strIncrFloat, hg] at ho hst
+    cases hf : formatFloatDec d with
+    | none => simp [hf, Spec.skip] at ho
+    | some txt =>
+      simp only [hf, Spec.ok] at ho hst
+      have hv : v = d := by
+        have := ho
+        simp only [Except.ok.injEq, Val.score.injEq, Score.fin.injEq] at this
+        exact this
+      subst hv
+      refine ⟨txt, hf, valueFloat_format hf, ?_, ?_⟩
+      · rw [hst, get_purge (hs.put k _), get_put]; simp [liveAt]
+      · rw [hst, get_purge (hs.put k _), get_put]; simp [liveAt]
+  | some e =>
+    obtain ⟨val, et⟩ := e
+    obtain ⟨hlive, _⟩ := get_abs_live hw hg
+    have hlive : liveAt now et = true := hlive
+    cases val with
+    | str b =>
+      simp only [Spec.strIncrFloat, hg] at ho hst
+      cases hvf : valueFloat b with
+      | invalid => simp [hvf, Spec.er] at ho
+      | unknown => simp [hvf, Spec.skip] at ho
+      | val x =>
+        simp only [hvf] at ho hst
+        cases hf : formatFloatDec (x + d) with
+        | none => simp [hf, Spec.skip] at ho
+        | some txt =>
+          simp only [hf, Spec.ok] at ho hst
+          have hv : v = x + d := by
+            have := ho
+            simp only [Except.ok.injEq, Val.score.injEq, Score.fin.injEq] at this
+            exact this
+          subst hv
+          refine ⟨txt, hf, valueFloat_format hf, ?_, ?_⟩
+          · rw [hst, get_purge (hs.put k _), get_put]; simp [hlive]
+          · rw [hst, get_purge (hs.put k _), get_put]; simp [hlive]
+    | list _ => simp [Spec.strIncrFloat, hg, Spec.er] at ho
+    | set _ => simp [Spec.strIncrFloat, hg, Spec.er] at ho
+    | hash _ => simp [Spec.strIncrFloat, hg, Spec.er] at ho
+    | zset _ => simp [Spec.strIncrFloat, hg, Spec.er] at ho
+
+/-- "…fails without effect when it is not one", for the float increment: a value-type error
+leaves no trace in the tables, whatever the state. -/
+theorem incrfloat_nonnumeric_notrace : ∀ (k : Bytes) (d : Dyadic) (now : Int) (db : DB),
+    (Model.dbRun (.strIncrFloat k d) now db).out = .error .valueType →
+    (Model.dbRun (.strIncrFloat k d) now db).db = db :=
+  fun _ _ _ _ h => update_error_db h
+
+def outScore : Out → Option Score
+  | .ok (.score s) => some s
+  | _ => none
+
+/-- non-vacuity: "1.5" + 0.25 on a live key stores "1.75" and returns 1.75 -/
+example :
+    let db : DB := { keys := [⟨1, [107], 1, 1, none, 5, none⟩], strs := [⟨1, [49, 46, 53]⟩] }
+    outScore (Model.dbRun (.strIncrFloat [107] (Dyadic.ofIntWithPrec 1 2)) 10 db).out
+        = some (.fin (Dyadic.ofIntWithPrec 7 2)) ∧
+      Model.strGetRaw (Model.dbRun (.strIncrFloat [107] (Dyadic.ofIntWithPrec 1 2)) 10 db).db [107] 10
+        = some [49, 46, 55, 53] := by
+  decide +kernel
 
 /-! ### the decision table of the conditional set -/
 
